@@ -9,9 +9,12 @@ pub assume_specification<T, U, F: FnOnce(T) -> U>[ Poll::<T>::map ](p: Poll<T>, 
 pub struct Sleep { _p: () }
 impl Sleep {
     pub uninterp spec fn deadline(&self) -> int;
+    /// `parked()`: the most recent poll returned Pending — only then does the timer hold the task's waker
+    pub uninterp spec fn parked(&self) -> bool;
     #[verifier::external_body]
     pub fn poll(&mut self, cx: &mut Context<'_>) -> (r: Poll<()>)
         ensures final(self).deadline() == old(self).deadline(), (r is Ready) <==> now_spec() >= old(self).deadline(),
+                final(self).parked() == (r is Pending),
     { unimplemented!() }
 }
 #[verifier::external_body]
